@@ -245,6 +245,11 @@ impl SimReader {
     v
   }
   /// every change in the topic cache (best-effort view), with payload bytes
+  /// what kind of change the cache holds for (writer, sn)
+  pub fn cache_kind(&self, w: u8, sn: i64) -> Option<&'static str> {
+    let tc = self.tc.lock().unwrap();
+    tc.verif_kinds().into_iter().find(|(g, s, _)| self.widx(*g) == w && *s == sn).map(|x| x.2)
+  }
   pub fn cache_all(&self) -> Vec<(u8, i64, Vec<u8>)> {
     let tc = self.tc.lock().unwrap();
     tc.verif_all().into_iter().map(|(g, s, b)| (self.widx(g), s, b)).collect()
